@@ -422,7 +422,7 @@ def batt_cap_fn(requested_energy, stay_dur, voltage, period):
             np.exp(max_dsoc * stay_dur / (transition_soc - 1)) - 1
         )
         if init_soc >= transition_soc:
-            return init_soc
+            return init_soc * battery_cap
 
         # If that didn't work, search over all possible init_soc for the
         # largest init_soc that still allows for delta_soc to be
